@@ -22,7 +22,7 @@
 //   D3  all strings of <= 8 (quick) / <= 9 (thorough) tokens over the 9 IPv6 tokens
 //          1  abcd  12345  :  ::  1.2.3.4  255.255.255.255  1.2.3.256  1:
 //       against IPv6address (8 tokens reach the full form 1:1:1:1:1:1:1:1 and every "::" alternative)
-//   D3b all strings of <= 7 (quick) / <= 8 (thorough) of the same tokens as URI_reference "//["s"]"
+//   D3b all strings of <= 6 (quick) / <= 8 (thorough) of the same tokens as URI_reference "//["s"]"
 //       and (thorough) URI "a://["s"]:8/"      (shorter: almost every case ends in a thrown parse_error)
 //   D4  all single edits (delete a byte, replace a byte by / insert at every position each of the
 //       30 edit bytes) of a corpus of valid URIs, references and address literals taken from
@@ -484,7 +484,7 @@ int main( int argc, char** argv )
       if( T ) bracket.push_back( { uriref::R_URI, "a://[", "]:8/" } );
       const std::vector< std::string > tok = { "1", "abcd", "12345", ":", "::", "1.2.3.4", "255.255.255.255", "1.2.3.256", "1:" };
       const int Ld = T ? 9 : 8;  // IPv6address itself
-      const int Lb = T ? 8 : 7;   // inside "[" "]" (nearly every such case ends in a thrown parse_error, which is ~10x slower)
+      const int Lb = T ? 8 : 6;   // inside "[" "]" (nearly every such case ends in a thrown parse_error, which is ~10x slower)
       for( int len = 1; ok && len <= Ld; ++len ) {
          ok = for_each_token_string( tok, len, [ & ]( const std::string& s ) { run_contexts( s, direct ); } );
       }
@@ -538,7 +538,7 @@ int main( int argc, char** argv )
                           "D2b <=8 tokens over {0 1 25 255 256 01 a .} x 6 contexts; D3 <=9 tokens over 9 IPv6 tokens {1 abcd 12345 : :: 1.2.3.4 255.255.255.255 1.2.3.256 1:} as IPv6address, D3b <=8 tokens inside //[..] and a://[..]:8/; "
                           "D4 all single byte edits (30 edit bytes) of " + nc + " RFC 3986 corpus strings and all double edits of those of length<=12, x 5 rules; every library run repeated with a poison tail behind the input"
                         : "quick: D1 all strings len<=5 over 22 class representatives [agv012569.:/?#[]@%!-+ SP] + len 6 over the 16 [agv01.:/?#[]@%-+], x 5 rules; D2a 1..5 dotted slots of 16 octet tokens x 6 contexts; "
-                          "D2b <=7 tokens over {0 1 25 255 256 01 a .} x 6 contexts; D3 <=8 tokens over 9 IPv6 tokens {1 abcd 12345 : :: 1.2.3.4 255.255.255.255 1.2.3.256 1:} as IPv6address, D3b <=7 tokens inside //[..]; "
+                          "D2b <=7 tokens over {0 1 25 255 256 01 a .} x 6 contexts; D3 <=8 tokens over 9 IPv6 tokens {1 abcd 12345 : :: 1.2.3.4 255.255.255.255 1.2.3.256 1:} as IPv6address, D3b <=6 tokens inside //[..]; "
                           "D4 all single byte edits (30 edit bytes) of " + nc + " RFC 3986 corpus strings x 5 rules; every library run repeated with a poison tail behind the input";
    vf::st.note = note + "; this shard:" + g_domain_note;
    vf::count( "ref_accept", c_ref_accept );
